@@ -51,6 +51,10 @@ def gen_cases(tier, seed):
             for rep in range(1 if q else 3):
                 cases.append({"type": "entry", "entry": entry, "wt": wt, "shape": [int(rng.integers(3, 6)), int(rng.integers(1, 3)), int(rng.integers(1, 3))],
                               "calls": 4, "dt": 0.05, "s": int(rng.integers(1 << 30)), "group": "en-%s-%s-%d" % (entry, wt, rep), "cost": 30})
+    # one long block (the sampler default is 50 steps per block; nothing above 5 is used elsewhere in this check)
+    for wt in (("rhf",) if q else ("rhf", "uhf")):
+        cases.append({"type": "entry", "entry": "plain", "wt": wt, "shape": [120, 1, 1], "calls": 2, "dt": 0.01, "s": int(rng.integers(1 << 30)),
+                      "group": "en-long-%s" % wt, "cost": 30})
     drv = [(None, True, True), ("forward", True, True), ("forward", False, True), ("forward", True, False), ("forward", False, False),
            ("reverse", True, True), ("reverse", False, True), ("reverse", False, False), ("reverse", True, False)]
     drv += [("2rdm", True, True)]
